@@ -33,6 +33,8 @@ type crashRun struct {
 	ops   []opRecord // indexed by op number (0 = initial open)
 	ackAt []int      // log index of each op's ack marker (-1 if none)
 	final []byte
+
+	everySecondTorn bool // thorough tier: a second, torn crash after every first crash point (else one in three)
 }
 
 // phase1 executes the session. Ops: put / putmany / finalize / restart_clean / restart_final.
@@ -353,12 +355,27 @@ func (cr *crashRun) judge(img *sim.Disk, p int, torn bool, cont []BlkSpec, st *S
 		contBlks = append(contBlks, cr.ops[curOp].all...)
 	}
 	contBlks = append(contBlks, MakeBlocks(cont)...)
+	secondTorn := cr.everySecondTorn || (p*7+boolInt(torn))%3 == 0
 	for _, b := range contBlks {
 		var perr error
+		verdict := m.PutVerdict(b)
+		var pre *sim.Disk
+		logBefore := img.MutCount()
+		if secondTorn && verdict == putStore {
+			pre = img.Clone()
+		}
 		if pv := safeCall(func() { perr = store.Put(b) }); pv != nil {
 			return viol("crash/continuation-panic/"+loc, "Put(%s) after resume panicked: %v", b.Spec, pv)
 		}
-		verdict := m.PutVerdict(b)
+		if pre != nil && perr == nil {
+			// a second crash INSIDE this put of the resumed session: the file may be longer than the place
+			// the session writes at (whatever the first crash left behind the payload is still there)
+			secondTorn = false
+			if v := cr.judgeSecondTorn(pre, img.Log[logBefore:], must, b, loc, st); v != nil {
+				return v
+			}
+			sim.CurrentFS = env.FS
+		}
 		atMost = append(atMost, b)
 		if perr != nil {
 			if verdict == putReject {
@@ -417,6 +434,85 @@ func (cr *crashRun) judge(img *sim.Disk, p int, torn bool, cont []BlkSpec, st *S
 	return nil
 }
 
+func boolInt(b bool) int {
+	if b {
+		return 1
+	}
+	return 0
+}
+
+// judgeSecondTorn cuts the writes of one put of the resumed session (boundaries and torn writes),
+// resumes again and requires: every block acknowledged before that put is there with its bytes, and the
+// block of the cut put is either absent or intact.
+func (cr *crashRun) judgeSecondTorn(pre *sim.Disk, writes []sim.Mutation, must []Blk, tb Blk, loc string, st *Stats) *Violation {
+	var ws []sim.Mutation
+	for _, w := range writes {
+		if w.Kind == sim.MutWrite || w.Kind == sim.MutTruncate {
+			ws = append(ws, w)
+		}
+	}
+	type cut struct{ q, j int }
+	var cuts []cut
+	for q, w := range ws {
+		if q > 0 {
+			cuts = append(cuts, cut{q, 0})
+		}
+		if n := len(w.Data); w.Kind == sim.MutWrite && n > 1 {
+			cuts = append(cuts, cut{q, 1})
+			if n > 3 {
+				cuts = append(cuts, cut{q, n / 2}, cut{q, n - 1})
+			}
+		}
+	}
+	for _, c := range cuts {
+		d := pre.Clone()
+		d.NoLog = true
+		for i := 0; i < c.q; i++ {
+			if ws[i].Kind == sim.MutWrite {
+				d.WriteAt(ws[i].Data, ws[i].Off)
+			} else {
+				d.Truncate(ws[i].Off)
+			}
+		}
+		if c.j > 0 {
+			d.WriteAt(ws[c.q].Data[:c.j], ws[c.q].Off)
+		}
+		d.NoLog = false
+		st.Fault("crash@second-torn", 1)
+		env2 := NewEnv()
+		env2.SetDisk(d)
+		var st2 Store
+		var err2 error
+		if pv := safeCall(func() { st2, err2 = OpenStore(env2, cr.cfg) }); pv != nil {
+			return viol("crash/reopen-panic/second-torn:"+loc, "reopening after a second crash inside Put(%s) of the resumed session panicked: %v", tb.Spec, pv)
+		}
+		sim.CurrentFS = env2.FS
+		if err2 != nil {
+			st.Probe("crash:second-torn-refused")
+			continue
+		}
+		st.Probe("crash:second-torn-resumed")
+		for _, b := range must {
+			has, herr := st2.Has(b.Cid)
+			data, gerr := st2.Get(b.Cid)
+			if herr != nil || !has || gerr != nil || !bytes.Equal(data, b.Data) {
+				return viol("crash/acked-block-missing/second-torn:"+loc, "a second crash inside Put(%s) of the resumed session (write %d cut at %d): the next resume lost acknowledged block %s (Has=%v,%v Get err=%v)", tb.Spec, c.q, c.j, b.Spec, has, herr, gerr)
+			}
+		}
+		if has, _ := st2.Has(tb.Cid); has && !IsIdentity(tb.Cid) {
+			data, gerr := st2.Get(tb.Cid)
+			if gerr != nil {
+				return viol("crash/listed-block-unreadable/second-torn:"+loc, "a second crash inside Put(%s) of the resumed session (write %d cut at %d): the next resume has the block but Get fails: %v", tb.Spec, c.q, c.j, gerr)
+			}
+			if !bytes.Equal(data, tb.Data) {
+				return viol("crash/wrong-bytes/second-torn:"+loc, "a second crash inside Put(%s) of the resumed session (write %d cut at %d): the next resume returns %d wrong bytes for the block whose Put never returned (want %d)", tb.Spec, c.q, c.j, len(data), len(tb.Data))
+			}
+		}
+		st2.Discard()
+	}
+	return nil
+}
+
 // crashPoints yields the (p, j) pairs to examine. every=false picks structural offsets.
 func (cr *crashRun) crashPoints(every bool, f func(p, j int) bool) {
 	for _, p := range cr.byteEntries() {
@@ -465,6 +561,7 @@ func RunC06(t *Trace, st *Stats) *Violation {
 			every = b
 		}
 	}
+	cr.everySecondTorn = every || (t.Crash != nil && !t.Crash.All)
 	if t.Crash != nil && !t.Crash.All {
 		st.Evals++
 		return cr.judge(cr.imageAt(t.Crash.K, t.Crash.J), t.Crash.K, t.Crash.J > 0, cont, st)
